@@ -18,6 +18,11 @@ fn scene_of(op: &Op) -> Option<u64> {
 
 /// compares two record sequences up to renaming of track ids
 pub fn same_up_to_ids(a: &[Vec<Rec>], b: &[Vec<Rec>], what: &str) -> Result<(), Fail> {
+    same_up_to_ids_map(a, b, what).map(|_| ())
+}
+
+/// ... and the bijection of track ids it was established under (ids of `a` -> ids of `b`)
+pub fn same_up_to_ids_map(a: &[Vec<Rec>], b: &[Vec<Rec>], what: &str) -> Result<BTreeMap<u64, u64>, Fail> {
     let mut fwd: BTreeMap<u64, u64> = BTreeMap::new();
     let mut bwd: BTreeMap<u64, u64> = BTreeMap::new();
     for (call, (ra, rb)) in a.iter().zip(b.iter()).enumerate() {
@@ -36,7 +41,7 @@ pub fn same_up_to_ids(a: &[Vec<Rec>], b: &[Vec<Rec>], what: &str) -> Result<(), 
             }
         }
     }
-    Ok(())
+    Ok(fwd)
 }
 
 pub fn check_isolation(h: &History) -> CaseResult {
@@ -44,7 +49,7 @@ pub fn check_isolation(h: &History) -> CaseResult {
     // predict / skip of each scene, plus the tracker-wide operations that move the collection of
     // expired tracks around (they must not change any scene's grouping either)
     let mut full = h.clone();
-    full.ops.retain(|o| matches!(o, Op::Predict { .. } | Op::Skip { .. } | Op::Wasted | Op::SetAutoWaste(_) | Op::ClearWasted));
+    full.ops.retain(|o| matches!(o, Op::Predict { .. } | Op::Skip { .. } | Op::Wasted | Op::SetAutoWaste(_) | Op::ClearWasted | Op::Idle { .. }));
     let inter = run_monitored(&full, flags)?;
     // batch trackers: the same history once more with the calls of different scenes that follow each
     // other submitted as one batch (scenes then share the batch, the voting workers and their buffers)
@@ -59,6 +64,7 @@ pub fn check_isolation(h: &History) -> CaseResult {
     let mut continuations_everywhere = true;
     let mut compared_calls = 0;
     let mut cut_calls = 0;
+    let mut idle_compared = 0;
     for s in &scenes {
         let mut proj = full.clone();
         proj.ops.retain(|o| scene_of(o) == Some(*s));
@@ -83,7 +89,18 @@ pub fn check_isolation(h: &History) -> CaseResult {
         let cut = (0..a.len()).find(|i| ma.get(*i).copied().unwrap_or(0.0) < MARGIN || mb.get(*i).copied().unwrap_or(0.0) < MARGIN).unwrap_or(a.len());
         compared_calls += cut;
         cut_calls += a.len() - cut;
-        same_up_to_ids(&a[..cut], &b[..cut], &format!("scene {}", s)).map_err(|f| Fail::new(format!("isolation-{}", f.signature), f.msg))?;
+        let ids = same_up_to_ids_map(&a[..cut], &b[..cut], &format!("scene {}", s)).map_err(|f| Fail::new(format!("isolation-{}", f.signature), f.msg))?;
+        // what the idle-tracks call reports for the scene (inside the compared prefix) is the same
+        // set of tracks under that bijection
+        let scene_calls: Vec<usize> = inter.records.iter().filter(|(k, _)| scene_of(&full.ops[*k]) == Some(*s)).map(|(k, _)| *k).collect();
+        let cut_op = scene_calls.get(cut).copied().unwrap_or(usize::MAX);
+        for (k, set) in inter.idle_sets.iter().filter(|(k, _)| *k < cut_op && scene_of(&full.ops[*k]) == Some(*s)) {
+            if let Some((_, other)) = single.idle_sets.iter().find(|(k2, _)| k2 == k) {
+                let mapped: std::collections::BTreeSet<u64> = set.iter().map(|id| ids.get(id).copied().unwrap_or(u64::MAX)).collect();
+                ensure!(mapped == *other, "isolation-idle-report", "scene {}: idle tracks reported at op {} differ: {:?} interleaved (ids of the projection: {:?}) vs {:?} in the projection", s, k, set, mapped, other);
+                idle_compared += 1;
+            }
+        }
         if let Some(g) = &grouped {
             let g: Vec<Vec<Rec>> = g.records.iter().filter(|(k, _)| scene_of(&full.ops[*k]) == Some(*s)).map(|(_, r)| r.clone()).collect();
             ensure!(g.len() == b.len(), "isolation-call-count", "scene {}: {} calls in the shared-batch run, {} in the projection", s, g.len(), b.len());
@@ -99,6 +116,7 @@ pub fn check_isolation(h: &History) -> CaseResult {
     Ok(CaseOk::new(nontrivial)
         .label(h.cfg.kind.name())
         .label_if(cut_calls > 0, "cut_at_fragile_call")
+        .label_if(idle_compared > 0, "idle_reports_compared")
         .label_if(compared_calls == 0, "nothing_compared")
         .label_if(grouped.is_some(), "shared_batches")
         .label_if(scenes.len() >= 2, "multi_scene"))
